@@ -17,30 +17,117 @@ try:
     LOG2_PARAMS_STATUS = translate_c14_r3.generate(core.REPO, os.path.join(core.COQ, "gen"))
 except Exception as _ex:
     LOG2_PARAMS_STATUS = "unparsed generator-failed: %s" % str(_ex)[:200]
+# round 4: the impl tables (which NumOrd / NumHash / AbsOrd impls exist and what the one-call bodies forward to) -> coq/gen/XImplTable.v,
+# tied by C14_impl_table_* / C14_impl_*_routes; the oracle looks the pair of every case up in the regenerated table.
+try:
+    import translate_c14_r4
+    IMPL_TABLE_STATUS = translate_c14_r4.generate(core.REPO, os.path.join(core.COQ, "gen"))
+except Exception as _ex:
+    IMPL_TABLE_STATUS = "unparsed generator-failed: %s" % str(_ex)[:200]
 
 if os.path.realpath(core.REPO) != os.path.realpath("/repo"):
     import atexit
 
     def _restore_params():
-        try:
-            translate_c14_r3.generate("/repo", os.path.join(core.COQ, "gen"))
-        except Exception:
-            pass
+        for tr in ("translate_c14_r3", "translate_c14_r4"):
+            try:
+                sys.modules[tr].generate("/repo", os.path.join(core.COQ, "gen"))
+            except Exception:
+                pass
 
     atexit.register(_restore_params)
 
 
+def _judge_extra(res, tag, exe, oracle, cases, timeout, mark=None):
+    """run cases on one harness build, judge them with the oracle, book the verdicts into res"""
+    answers = core.run_sharded(exe, cases, case_timeout=timeout)
+    verdicts = core.run_sharded(oracle, [(i, "%s => %s" % (t, answers.get(i, "noanswer"))) for i, t in cases], case_timeout=max(timeout, 60))
+    res["evaluations"] += len(cases)
+    hist = res["hist"]
+    bad = 0
+    for i, t in cases:
+        v = verdicts.get(i, "noverdict")
+        toks = v.split()
+        verdict = toks[0] if toks else "noverdict"
+        kv = dict(x.split("=", 1) for x in toks[1:] if "=" in x)
+        hist["%s:op:%s" % (tag, t.split(" ", 1)[0])] = hist.get("%s:op:%s" % (tag, t.split(" ", 1)[0]), 0) + 1
+        if "asis" in kv:
+            hist["%s:asis:%s" % (tag, kv["asis"])] = hist.get("%s:asis:%s" % (tag, kv["asis"]), 0) + 1
+        if verdict == "pass":
+            hist[tag + ":pass"] = hist.get(tag + ":pass", 0) + 1
+            if kv.get("nt") == "1":
+                res["nontrivial"].append(tag + " " + t)
+        elif verdict == "skip":
+            hist[tag + ":undecided"] = hist.get(tag + ":undecided", 0) + 1
+        else:
+            bad += 1
+            if bad <= 3:
+                res["failures"].append({"kind": tag + "-violation", "config": mark or "default", "case": t, "impl": answers.get(i, "noanswer")[:400], "oracle": v[:400],
+                                        "replay": "build harness/src/bin/c14.rs with core.harness_build('c14', %r) and feed the case; judge with the c14 oracle" % (mark or "default")})
+    return answers
+
+
+LG_FULL = 1 << 24
+LG_CHUNK = 1 << 16
+
+
 def extra_phase(tier, seed, exes, oracle):
     word = LOG2_PARAMS_STATUS.split(" ", 1)[0]
-    return {
+    word4 = IMPL_TABLE_STATUS.split(" ", 1)[0]
+    res = {
         "evaluations": 0,
-        "hist": {"translator_c14:XLog2Params:" + word: 1},
+        "hist": {"TRANSLATOR_C14:XLog2Params:" + word: 1, "TRANSLATOR_C14:XImplTable:" + word4: 1},
         "nontrivial": [],
         "samples": [{"fragment": "coq/gen/XLog2Params.v (tools/translate_c14_r3.py from base/src/math/log.rs, integer/src/log.rs, float/src/{log,repr}.rs, */third_party/num_order.rs)",
                      "status": LOG2_PARAMS_STATUS,
-                     "tied_by": "C14_log2_params_tie" if word == "ok" else "correspondence run only (source not parsed; last good copy marked STALE)"}],
+                     "tied_by": "C14_log2_params_tie" if word == "ok" else "correspondence run only (source not parsed; last good copy marked STALE)"},
+                    {"fragment": "coq/gen/XImplTable.v (tools/translate_c14_r4.py from {integer,float,rational}/src/third_party/num_order.rs and src/cmp.rs)",
+                     "status": IMPL_TABLE_STATUS,
+                     "tied_by": "C14_impl_table_numord_exact, C14_impl_table_absord_exact, C14_impl_table_numhash_exact, C14_impl_numord_routes, C14_impl_absord_routes; the oracle looks every case up in the table"
+                                if word4 == "ok" else "correspondence run only (source not parsed; last good copy marked STALE)"}],
         "failures": [],
     }
+    exe = exes.get("default")
+    timeout = CASE_TIMEOUT.get(tier, 30)
+    # (a) the libm assumption lg_contract, checked EXHAUSTIVELY in the thorough tier: all 2^24 integers, f32::log2 of the machine against an
+    # integer-arithmetic enclosure of log2 n (harness) and, for ten integers of every chunk, against the oracle's own enclosure
+    if exe is not None:
+        if tier == "thorough":
+            chunks = [(k * LG_CHUNK + 1, (k + 1) * LG_CHUNK) for k in range(LG_FULL // LG_CHUNK)]
+        else:
+            rng = core.Rng((seed or 0) ^ 0x16C0)
+            chunks = [(1, 4096), (LG_FULL - 4095, LG_FULL)] + [(lo, lo + 4095) for lo in [1 + rng.below(LG_FULL - 4096) for _ in range(14)]]
+        cases = list(enumerate("lgchk %x %x" % c for c in chunks))
+        before = len(res["failures"])
+        _judge_extra(res, "LG_CONTRACT", exe, oracle, cases, max(timeout, 60))
+        n_int = sum(hi - lo + 1 for lo, hi in chunks)
+        ok = len(res["failures"]) == before
+        res["hist"]["LG_CONTRACT:integers_checked"] = n_int
+        res["hist"]["LG_CONTRACT:exhaustive(all 2^24)"] = 1 if (tier == "thorough" and ok) else 0
+        res["samples"].append({"assumption": "lg_contract (f32::log2 of an integer in [1, 2^24] is finite and its f32 neighbours enclose log2 n)",
+                               "checked": "%d integers in %d ranges%s, against an exact integer enclosure of log2 n (harness, 40 fraction bits, no undecided value allowed) and the oracle's own enclosure for 10 integers per range"
+                                          % (n_int, len(chunks), " = ALL integers of [1, 2^24]" if tier == "thorough" else " (quick tier: two ends + 14 random windows; the thorough tier checks all 2^24)"),
+                               "violations": 0 if ok else "see failures"})
+    # (b) the 32-bit-word build (force_bits="32"): DoubleWord = u64, so u128 / i128 operands no longer fit the inline representation,
+    # log2_bounds_large starts at 65 bits, usize stays 64 bits.  The harness reports its word size, the oracle runs the models with it.
+    try:
+        exe32, out = core.harness_build(HARNESS_BIN, "w32")
+    except Exception as ex:
+        exe32, out = None, str(ex)
+    if exe32 is None:
+        res["failures"].append({"kind": "w32-harness-build-failed", "detail": out[-800:]})
+        return res
+    rng = core.Rng((seed or 0) ^ 0x32323232)
+    n = 2500 if tier == "quick" else 40000
+    corpus = []
+    cp = os.path.join(core.ROOT, "corpus", "C14.txt")
+    if os.path.exists(cp):
+        corpus = [l.strip() for l in open(cp) if l.strip() and not l.startswith("#")]
+    texts = corpus + [w32_case(rng) for _ in range(n // 4)] + gen_cases(rng, tier, n - n // 4)
+    _judge_extra(res, "W32", exe32, oracle, list(enumerate(texts)), timeout, mark="w32")
+    res["samples"].append({"config": "w32 (--cfg force_bits=\"32\")", "cases": len(texts),
+                           "what": "corpus + directed u128 / i128 / 65..128-bit operands against UBig / IBig / FBig / RBig (NumOrd, NumHash, AbsOrd, log2_bounds with 32-bit words) + the general generators"})
+    return res
 
 
 ID = "C14"
@@ -50,54 +137,67 @@ HARNESS_BIN = "c14"
 NCASES = {"quick": 9000, "thorough": 200000}
 CASE_TIMEOUT = {"quick": 30, "thorough": 120}
 
-LEVEL_TEXT = ("Machine-checked Coq theorems (51 pinned): every NumOrd / AbsOrd body of the integer, float and rational crates (transcribed branch "
+LEVEL_TEXT = ("Machine-checked Coq theorems (72 pinned): every NumOrd / AbsOrd body of the integer, float and rational crates (transcribed branch "
               "by branch: NaN/zero tests, sign filter, infinities, bit-length or log2-estimate filter, exact comparison after scaling) returns "
               "the order of the exact values, for all operands and for EVERY estimator that satisfies the soundness contract; the f32 "
               "arithmetic of the library's own estimators (EstimatedLog2::log2_bounds of the unsigned integers, rationals and floats, "
               "Repr::digits_ub; transcribed on Flocq's IEEE binary32) is PROVED to satisfy that contract modulo one assumption on libm "
-              "(f32::log2 of an integer up to 2^24 is within one f32 step of the exact value), so the bodies run with the library's "
-              "estimators return the exact order (integers of any size incl. the multi-word estimator log2_bounds_large, any exponent); the NumHash inputs of integers, "
-              "floats, rationals (denominators that are multiples of 2^127-1 included) and of the primitives (num-order's own code, "
-              "transcribed) equal one function of the exact value. The transcriptions are tied to the code by a correspondence run "
-              "judged against the extracted specification, including the bit patterns of log2_bounds.")
+              "(f32::log2 of an integer up to 2^24 is within one f32 step of the exact value), so NumOrd, AbsOrd and the same-base "
+              "PartialOrd / Ord run with the library's RAW estimators return the exact order for integer parts of any size (multi-word "
+              "estimator log2_bounds_large included; round 4: digits_ub of multi-word significands too), any exponent; the NumHash inputs "
+              "of integers, floats, rationals (denominators that are multiples of 2^127-1 included) and of the primitives (num-order's own "
+              "code, transcribed; round 4: its conventions for +-inf, NaN, -0.0 against dashu's infinite floats and zeros) equal one "
+              "function of the exact value. Round 4: the IMPL TABLES (which NumOrd / NumHash / AbsOrd impls exist, what every one-call body "
+              "forwards to) are regenerated from the sources on every run and proved to be exactly the pairs the model serves, each "
+              "forwarding route being the model's entry. The transcriptions are tied to the code by a correspondence run judged against "
+              "the extracted specification, including the bit patterns of log2_bounds, on a 64-bit-word and a 32-bit-word build.")
 LEVEL_NOTE = ("Trusted: Coq kernel, Flocq's definition of binary32, extraction + FastZ.v, zarith, harness, the transcription of the bodies "
               "and of the estimators (compared on every run incl. the f32 bit patterns, asis=same/diff histogram; constants regenerated "
-              "from the sources, C14_log2_params_tie). ASSUMED about libm: lg_contract (one-step accuracy of f32::log2 on integers in "
-              "[1, 2^24]; satisfiable: C14_libm_contract_inhabited; checked in double precision for every value the run reports). The "
-              "error analysis of the two ADJUST products of log2_bounds_large is imported from C12 (Int/GrlLog2StdProof.v large_lower / "
-              "large_upper); AbsOrd / same-base Ord with the raw digits_ub are proved for significands within a double word; "
-              "next_up/next_down are modelled by Flocq's Bsucc/Bpred (the bit trick itself is compared, not proved).")
-TECHNIQUE = "Coq proof of the transcribed comparison/hash bodies and of the f32 estimators (Flocq binary32) against exact-value specifications + extracted-spec correspondence run"
-RULE = ("cases = {ord, abs, hash, cmp, est, ordf, absf, cmpf} x every implemented (left type, right type) pair of UBig, IBig, u8..u128/usize, "
-        "i8..i128/isize, f32, f64, FBig and Repr in bases 2/3/10/16, RBig, Relaxed x value classes {equal across types, neighbours differing "
+              "from the sources, C14_log2_params_tie; impl tables regenerated, C14_impl_*). ASSUMED about libm: lg_contract (one-step accuracy "
+              "of f32::log2 on integers in [1, 2^24]; satisfiable: C14_libm_contract_inhabited; round 4: checked on the machine's libm "
+              "against an exact integer enclosure of log2 n - EXHAUSTIVELY, all 2^24 integers, in the thorough tier, on random windows in the "
+              "quick tier; recorded in the evidence as LG_CONTRACT:*). The error analysis of the two ADJUST products of log2_bounds_large is "
+              "imported from C12 (Int/GrlLog2StdProof.v large_lower / large_upper); digits_ub in bases other than 2 is proved for significands "
+              "of at most 2^24 digits (beyond that the rounding of `ub * LOG10_2` / `ub / log2(B)` would have to be absorbed by the slack of "
+              "ADJUST, not analysed); next_up/next_down are modelled by Flocq's Bsucc/Bpred (the bit trick itself is compared, not proved).")
+TECHNIQUE = "Coq proof of the transcribed comparison/hash bodies, of the f32 estimators (Flocq binary32) and of the regenerated impl tables against exact-value specifications + extracted-spec correspondence run on two word sizes + exhaustive check of the one libm assumption"
+RULE = ("cases = {ord, abs, hash, cmp, est, ordf, absf, cmpf, lgchk} x every (left type, right type) pair of UBig, IBig, u8..u128/usize, "
+        "i8..i128/isize, f32, f64, FBig and Repr in bases 2/3/10/16, RBig, Relaxed (pairs WITHOUT an impl included: the answer must be "
+        "no-impl exactly when the regenerated table has no entry) x value classes {equal across types, neighbours differing "
         "in the last bit / last digit / numerator +-1, ratio 1 + 2^-k for k up to 40 (around the width of the f32 estimates), bit lengths at "
-        "the filter thresholds 24+128 and 53+1024 +-1, floats below 1/2 against 0 and +-1, exponents +-10^6, 2^40 and the ends of the isize "
-        "range (2^61, 2^62, 2^63-1) where scaling is impossible, exact path at |e| = 3..20 million for the bases 2 and 16, infinities, -0.0, "
-        "NaN, subnormals, MAX/MIN of every primitive, multiples of 2^127-1 in numerators, denominators and exponents that are multiples of "
-        "127}; est = log2_bounds / digits_ub of one operand with the libm values it used: zero, powers of two, <= 24 bits, 24-bit prefixes "
-        "(all ones, 2^23, ties) with every shift, more than two words, float exponents around and far beyond 2^24 (where `exponent as f32` "
-        "rounds), cancellation significand ~ base^j with exponent -j, rationals with nearly equal numerator and denominator; ordf/absf/cmpf = "
-        "the comparison run on the transcribed f32 estimators. non-trivial = the oracle evaluated the specification on operands that are "
-        "not both zero; distinct = distinct case texts.")
+        "the filter thresholds 24+128 and 53+1024 +-1, floats below 1/2 against 0 and +-1, exact zero of every type against tiny positive / "
+        "negative numbers of every other type (two power-of-two bases with different modes included), exponents +-10^6, 2^40 and the ends "
+        "of the isize range (2^61, 2^62, 2^63-1) where scaling is impossible, exact path at |e| = 3..20 million for the bases 2 and 16, "
+        "infinities, -0.0, NaN, subnormals, MAX/MIN of every primitive, u128 / i128 from 2^64 on against equal / truncated / neighbouring "
+        "big numbers, multiples of 2^127-1 in numerators, denominators and exponents that are multiples of 127, same-base floats whose "
+        "exponent difference is the digit count of a multi-word significand -2..+2}; est = log2_bounds / digits_ub of one operand with the "
+        "libm values it used: zero, powers of two, <= 24 bits, 24-bit prefixes (all ones, 2^23, ties) with every shift, more than two words, "
+        "float exponents around and far beyond 2^24 (where `exponent as f32` rounds), cancellation significand ~ base^j with exponent -j, "
+        "rationals with nearly equal numerator and denominator; ordf/absf/cmpf = the comparison run on the transcribed f32 estimators; "
+        "lgchk = lg_contract on a range of integers. The corpus, directed 65..128-bit cases and a share of the generators run a second "
+        "time on the 32-bit-word build (W32:* in the histogram). non-trivial = the oracle evaluated the specification on operands that "
+        "are not both zero; distinct = distinct case texts.")
 EXPLANATION = ("Theorems (coq/props/C14.v): for sound estimators each transcribed body equals spec_cmp / spec_abs_cmp of the exact values; "
-               "NaN gives None; the library's f32 estimators are sound (C14_f32_*), hence C14_num_ord_f32 / C14_abs_ord_f32 / "
-               "C14_float_same_base_f32; the hash inputs equal spec_hash of the exact value, hence equal values of different types hash "
-               "equally, primitives included (C14_prim_int_hash, C14_prim_float_hash) and denominators that are multiples of 2^127-1 "
-               "(C14_ratio_hash_m127_reduced, C14_ratio_hash_any_form). Every generated case is judged against the extracted "
-               "specification, the transcribed bodies and estimators are run alongside (asis=same|diff).")
+               "NaN gives None; the library's f32 estimators are sound (C14_f32_*), hence C14_num_ord_f32(_any) / C14_abs_ord_f32(_any) / "
+               "C14_float_same_base_f32(_any); the hash inputs equal spec_hash of the exact value, hence equal values of different types hash "
+               "equally, primitives included (C14_prim_int_hash, C14_prim_float_hash; specials: C14_prim_float_hash_inf/_nan/_zero, "
+               "C14_inf_hash_agree) and denominators that are multiples of 2^127-1 (C14_ratio_hash_m127_reduced, C14_ratio_hash_any_form); "
+               "the regenerated impl tables are exactly the expected pairs and every forwarding impl is the model's entry (C14_impl_*). Every "
+               "generated case is judged against the extracted specification, the transcribed bodies and estimators are run alongside "
+               "(asis=same|diff), on the default and on the 32-bit-word build.")
 TRUSTED_BASE = [
     "Coq 8.16.1 kernel; Flocq 4.1 IEEE754.BinarySingleNaN as the meaning of f32 arithmetic (nearest-even +, -, *, /, conversion, successor, predecessor, truncation)",
-    "extraction: ExtrOcamlBasic + ExtrOcamlZBigInt + coq/extract/FastZ.v directives; zarith 1.12; oracle/common.ml, oracle/driver_c14.ml (incl. the double-precision check of the libm assumption and of the enclosure of log2_bounds answers)",
-    "harness/src/bin/c14.rs (values moved through raw words / to_bits; a recording Hasher captures the i128 fed by num_hash; the libm table of an operand is recomputed by the harness with f32::log2 on the arguments the std estimator uses)",
-    "the transcription of the Rust bodies in coq/theories/Cross/XOrdModel.v, XDispatch.v, XLog2Model.v (f32 estimators), XPrimHashModel.v (num-order 1.2.0 src/hash.rs) - compared with the implementation on every run; constants regenerated by tools/translate_c14_r3.py",
-    "UBig/IBig comparison, shifting, multiplication and remainder behave as on Z (C01, C02, C09); FixedMersenneInt of num-modular computes in the field of 2^127-1",
+    "extraction: ExtrOcamlBasic + ExtrOcamlZBigInt + coq/extract/FastZ.v directives; zarith 1.12; oracle/common.ml, oracle/driver_c14.ml (incl. the double-precision check of the libm assumption and of the enclosure of log2_bounds answers, and the arbitrary-precision enclosure of log2 n used for lgchk)",
+    "harness/src/bin/c14.rs (values moved through raw words / to_bits; a recording Hasher captures the i128 fed by num_hash; the libm table of an operand is recomputed by the harness with f32::log2 on the arguments the std estimator uses, for the word size of the build; lgchk: bit-by-bit squaring enclosure of log2 n in u128)",
+    "the transcription of the Rust bodies in coq/theories/Cross/XOrdModel.v, XDispatch.v, XLog2Model.v (f32 estimators), XPrimHashModel.v (num-order 1.2.0 src/hash.rs) - compared with the implementation on every run; constants regenerated by tools/translate_c14_r3.py, impl tables by tools/translate_c14_r4.py (the meaning of a one-call route, XImplModel.v ord_route_sem / abs_route_sem, is part of the transcription)",
+    "UBig/IBig comparison, shifting, multiplication and remainder behave as on Z (C01, C02, C09); UBig::from / IBig::from / from_unsigned / from_signed preserve the value (C06; run on both word sizes here); FixedMersenneInt of num-modular computes in the field of 2^127-1",
 ]
 ASSUMPTIONS = [
-    "libm: f32::log2 of an integer n in [1, 2^24] is finite and its two f32 neighbours enclose log2 n (XLog2Flocq.lg_contract); everything around it in log2_bounds / digits_ub is proved; the general theorems hold for every sound estimator",
-    "the f32-estimator instance for NumOrd (C14_num_ord_f32_any) covers integer parts of bit length below 2^62 (word size 32..64) and exponents within the isize range; the AbsOrd / same-base instance (digits_ub) covers integer parts below 2^(2*word bits)",
+    "libm: f32::log2 of an integer n in [1, 2^24] is finite and its two f32 neighbours enclose log2 n (XLog2Flocq.lg_contract); everything around it in log2_bounds / digits_ub is proved; the general theorems hold for every sound estimator; the assumption is checked on this machine for every integer of the range in the thorough tier (LG_CONTRACT:* in the evidence)",
+    "the f32-estimator instances (C14_num_ord_f32_any, C14_abs_ord_f32_any, C14_float_same_base_f32_any) cover integer parts of bit length below 2^62 (word size 32..64) and exponents within the isize range; digits_ub in a base other than 2 is proved for significands of at most 2^24 digits",
     "rationals have positive denominators, float bases are >= 2; exponent arithmetic is unbounded (Z) in the comparison models - the two places where the code left the isize range were repaired (F05, F06) and exponents up to +-(2^63-1) are generated; isize::MIN itself is not (hlib::isz cannot carry it)",
     "exact-path scaling by B^|e| is exercised up to |e| = 10^6 in every base and up to 2*10^7 in the bases 2 and 16 (beyond that the generator keeps the operands far enough apart for the filters to decide, as the real code would otherwise try to allocate the power); the theorems have no such bound",
-    "NumHash of infinities and NaN is outside the property (no exact value); num-order's answers for them are compared with the transcription only",
+    "NumHash of infinities and NaN is outside the property (no exact value); num-order's answers for them are transcribed and proved equal to dashu's for the infinities (C14_inf_hash_agree), compared on every run",
 ]
 
 M127 = (1 << 127) - 1
@@ -542,10 +642,133 @@ def small_tok(tok):
     return True
 
 
+def w32_case(rng):
+    """operands between the double word of the 32-bit-word build (u64) and of the 64-bit-word build (u128): u128 / i128 primitives
+    from 2^64 on and big integers of 65..128 bits, against every partner type; equal values, the low 64 bits only (what a truncation
+    to u64 would leave), neighbours, far apart"""
+    v = rng.choice([1 << 64, (1 << 64) + 7, 1 << 100, (1 << 128) - 1, 1 << 127, (1 << 127) - 1, rng.bits(128) | (1 << 64),
+                    (rng.bits(64) << 64) | rng.bits(64), (1 << 64) | rng.bits(20), (1 << 70), (rng.bits(30) + 1) << 64])
+    signed = rng.chance(1, 3)
+    if signed:
+        v = (v % (1 << 127)) | (1 << 64)
+        if rng.chance(1, 2):
+            v = -v
+    prim = ("pi128:%s" if signed else "pu128:%s") % hx(v)
+    lowv = (abs(v) % (1 << 64)) * (1 if v >= 0 else -1)
+    pv = rng.choice([v, v, lowv, v + 1, v - 1, v * 8, v >> 30, (1 << 70) * (1 if v >= 0 else -1), lowv + (1 << 64) * (1 if v >= 0 else -1)])
+    r = rng.below(12)
+    if r < 5:
+        kb = rng.choice(["u", "i"])
+        if kb == "u":
+            pv = abs(pv)
+        b = "%s:%s" % (kb, hx(pv))
+        return "ord %s %s" % ((b, prim) if rng.chance(1, 2) else (prim, b))
+    if r < 8:
+        kb = rng.choice(FK + GK + QK)
+        b = enc(rng, kb, Fraction(pv), exact_only=True)
+        return "%s %s %s" % (rng.choice(["ord", "ord", "ordf"]), *((b, prim) if rng.chance(1, 2) else (prim, b)))
+    if r < 10:
+        return "hash %s" % rng.choice([prim, "u:%s" % hx(abs(v)), "i:%s" % hx(v), enc(rng, rng.choice(FK + QK), Fraction(v), exact_only=True)])
+    if r == 10:
+        ka = rng.choice(["u", "i"])
+        a = "%s:%s" % (ka, hx(abs(v) if ka == "u" else v))
+        b = enc(rng, rng.choice(FK + GK + QK + ["u", "i"]), Fraction(abs(pv) if rng.chance(1, 2) else pv), exact_only=True)
+        if b.startswith("u:-"):
+            b = "u:" + b[3:]
+        return "%s %s %s" % (rng.choice(["abs", "absf"]), *((a, b) if rng.chance(1, 2) else (b, a)))
+    return "est %s" % rng.choice(["u:%s" % hx(abs(v)), "i:%s" % hx(v), "q:%s:%s" % (hx(v), hx(abs(pv) | 1)), "g10:%s:%s" % (hx(v | 1), hx(rng.range(-40, 40)))])
+
+
+def zero_tiny_case(rng):
+    """exact zero of one type against a tiny positive / negative number of another, every pair of the impl table and both orders;
+    floats of two power-of-two bases and different rounding modes included (a top-bit shortcut must not take zero for 2^0)"""
+    ka, kb = ord_pair(rng) if rng.chance(1, 2) else (rng.choice(["f2", "f16", "g2", "g16"]), rng.choice(["f2", "f16", "g2", "g16"]))
+    if ka[0] != kb[0] and ka[0] in "fg" and kb[0] in "fg":
+        kb = ka[0] + kb[1:]
+    zero = {"u": "u:0", "i": "i:0", "q": "q:0:1", "r": "r:0:1", "d": rng.choice(["d:0", "d:8000000000000000"]), "s": rng.choice(["s:0", "s:80000000"])}
+    def zt(k):
+        if k in zero:
+            return zero[k]
+        if k in UNS or k in SGN:
+            return "%s:0" % k
+        if k in FK:
+            return "%s:%x:0:0" % (k, rng.choice([0, 3, 53]))
+        return "%s:0:0" % k
+    def tiny(k):
+        sg = rng.choice([1, 1, -1])
+        if k in FK or k in GK:
+            base = int(k[1:])
+            m = rng.choice([1, 3, 5, 7, rng.bits(20) * base + 1])
+            e = -rng.choice([1, 2, 3, 10, 40, 127, 1000, 10 ** 6])
+            while base ** (-e) <= 2 * m and e > -2000:
+                e -= 1
+            return ("%s:%x:%s:%s" % (k, rng.choice([0, 3]), hx(sg * m), hx(e))) if k in FK else "%s:%s:%s" % (k, hx(sg * m), hx(e))
+        if k in QK:
+            return "%s:%s:%s" % (k, hx(sg * rng.choice([1, 3, 7])), hx(rng.choice([8, 10, 1 << 70, 3 ** 50, 10 ** 30])))
+        if k == "d":
+            return "d:%x" % (((1 if sg < 0 else 0) << 63) | rng.choice([1, 0xfffffffffffff, 0x10000000000000, 0x3fd0000000000000, 0x3fdfffffffffffff, 0x3c90000000000000, 0x0010000000000001]))
+        if k == "s":
+            return "s:%x" % (((1 if sg < 0 else 0) << 31) | rng.choice([1, 0x7fffff, 0x800000, 0x3e800000, 0x3effffff, 0x2edbe6ff, 0x00800001]))
+        return None
+    a, b = zt(ka), tiny(kb)
+    if b is None:     # the partner is an integer type: no tiny value, swap the roles
+        a, b = zt(kb), tiny(ka)
+        if b is None:
+            a, b = "u:0", "d:1"
+        return "ord %s %s" % (b, a) if rng.chance(1, 2) else "ord %s %s" % (a, b)
+    return "ord %s %s" % ((a, b) if rng.chance(1, 2) else (b, a))
+
+
+def same_base_large_case(rng):
+    """PartialOrd / Ord / AbsOrd of two floats of one base where Repr::digits_ub of a MULTI-WORD significand decides:
+    exponent difference = number of digits of the long significand + {-2, -1, 0, 1}"""
+    ka = rng.choice(FK)
+    base = int(ka[1:])
+    nd = rng.choice([40, 41, 60, 100, 200, 617, 1234, rng.range(39, 2500)])
+    long_sig = base ** (nd - 1) * rng.choice([1, 1, base - 1, rng.range(1, base - 1) if base > 2 else 1]) + rng.choice([0, 1, rng.bits(64), base ** (nd - 1) - 1])
+    while long_sig % base == 0:
+        long_sig += 1
+    D = ilog(base, long_sig) + 1
+    short = rng.choice([1, base - 1, base + 1, rng.bits(30) | 1, long_sig // base ** (D - 3)])
+    while short % base == 0:
+        short += 1
+    ds = ilog(base, short) + 1
+    e2 = rng.choice([0, -5, 7, -D, rng.range(-3000, 3000)])
+    e1 = e2 + D - ds + rng.choice([-2, -1, 0, 0, 1, 2])
+    s1 = short * rng.choice([1, 1, -1])
+    s2 = long_sig * rng.choice([1, 1, -1])
+    a = "%s:%x:%s:%s" % (ka, rng.choice([0, 3]), hx(s1), hx(e1))
+    b = "%s:%x:%s:%s" % (ka, rng.choice([0, 3]), hx(s2), hx(e2))
+    op = rng.choice(["cmp", "cmpf", "cmpf", "abs", "absf", "absf"])
+    return "%s %s %s" % ((op, a, b) if rng.chance(1, 2) else (op, b, a))
+
+
+ALLK = INTS + FK + GK + QK + PF
+
+
 def gen_cases(rng, tier, n):
     out = []
     while len(out) < n:
-        k = rng.below(112)
+        k = rng.below(124)
+        if k >= 120:
+            out.append(w32_case(rng))
+            continue
+        if k >= 116:
+            out.append(zero_tiny_case(rng))
+            continue
+        if k >= 113:
+            out.append(same_base_large_case(rng))
+            continue
+        if k == 112:
+            if rng.chance(1, 8):
+                lo = 1 + rng.below((1 << 24) - 512)
+                out.append("lgchk %x %x" % (lo, lo + 511))
+            else:
+                # any pair of kinds: the answer is `err no-impl` exactly when the regenerated impl table has no entry
+                ka, kb = rng.choice(ALLK), rng.choice(ALLK)
+                v = gen_value(rng, tier)
+                out.append("%s %s %s" % (rng.choice(["ord", "ord", "abs"]), enc(rng, ka, v), enc(rng, kb, v if rng.chance(1, 2) else gen_value(rng, tier))))
+            continue
         if k >= 100:
             out.append("est %s" % gen_est(rng, tier))
             continue
@@ -644,7 +867,7 @@ def gen_cases(rng, tier, n):
     res = []
     for c in out:
         f = c.split(" ")
-        if f[0] in ("ord", "abs", "cmp") and rng.chance(1, 3):
+        if f[0] in ("ord", "abs", "cmp") and rng.chance(1, 3) and len(c) < 4000:
             res.append(" ".join([f[0] + "f"] + f[1:]))
         else:
             res.append(c)
